@@ -121,8 +121,24 @@ func (c *caseCtx) partLocks(spec caseSpec, hostile bool) {
 			}
 		}
 	}
+	detached := map[string]bool{}
 	for i := 0; i < nops; i++ {
 		u := users[r.Intn(2)]
+		// now and then a user detaches HEAD (or goes back to the branch): lock requests then carry no branch ref
+		if (i == 1 && c.idx%2 == 0) || r.Intn(9) == 0 {
+			if detached[u.dir] {
+				c.must(u.dir, "checkout", "-q", "-")
+				detached[u.dir] = false
+			} else {
+				c.must(u.dir, "checkout", "-q", "--detach")
+				detached[u.dir] = true
+				kinds["detached-head"] = true
+				c.count("steps_head_detached", 1)
+			}
+		}
+		if detached[u.dir] {
+			c.count("lock_commands_with_detached_head", 1)
+		}
 		refs := c.currentRefs(u.dir)
 		k := r.Intn(100)
 		switch {
